@@ -113,6 +113,8 @@ impl MemoryAreas {
   }
 
   pub fn run_clock_cycles(&mut self, cycles: ClockCycles) {
+    #[cfg(gb_dynarec_verif)]
+    verif::add_clocks(cycles.as_usize());
     // If a DMA is currently active, it updates with the rest of the memory bus
     // One byte is copied on each machine cycle. This will copy at most that
     // many bytes (or fewer, if the DMA completes before then).
@@ -195,6 +197,8 @@ fn create_buffer(size: usize) -> Box<[u8]> {
 #[inline(never)]
 pub extern "sysv64" fn memory_read_byte(areas: *const MemoryAreas, addr: u16) -> u8 {
   let memory_areas: &MemoryAreas = unsafe { &*areas };
+  #[cfg(gb_dynarec_verif)]
+  verif::record(0, addr, 0);
   if addr < 0x4000 { // ROM Bank 0
     return memory_areas.rom[addr as usize];
   }
@@ -245,6 +249,8 @@ pub extern "sysv64" fn memory_read_byte(areas: *const MemoryAreas, addr: u16) ->
 #[inline(never)]
 pub extern "sysv64" fn memory_write_byte(areas: *mut MemoryAreas, addr: u16, value: u8) {
   let memory_areas: &mut MemoryAreas = unsafe { &mut *areas };
+  #[cfg(gb_dynarec_verif)]
+  verif::record(1, addr, value);
   if addr < 0x8000 { // ROM Banks
     memory_areas.cart_state.write_rom(addr, value);
     return;
@@ -325,3 +331,53 @@ pub fn can_dynarec(addr: usize) -> bool {
   addr < 0x8000
 }
 
+
+
+/// Verification hooks (compiled only with `--cfg gb_dynarec_verif`): an
+/// optional recorder for bus accesses, a running total of the clock cycles
+/// delivered to the devices, and a read-only view of the DMA progress.
+#[cfg(gb_dynarec_verif)]
+pub mod verif {
+  use std::cell::{Cell, RefCell};
+
+  thread_local! {
+    static TRACE_ON: Cell<bool> = Cell::new(false);
+    static TRACE: RefCell<Vec<(u8, u16, u8)>> = RefCell::new(Vec::new());
+    static CLOCKS: Cell<u64> = Cell::new(0);
+  }
+
+  #[inline]
+  pub fn record(kind: u8, addr: u16, value: u8) {
+    TRACE_ON.with(|on| {
+      if on.get() {
+        TRACE.with(|t| t.borrow_mut().push((kind, addr, value)));
+      }
+    });
+  }
+
+  pub fn trace_enable(on: bool) {
+    TRACE_ON.with(|flag| flag.set(on));
+  }
+
+  /// Returns and clears everything recorded so far: (kind 0 = read /
+  /// 1 = write, address, value written).
+  pub fn trace_take() -> Vec<(u8, u16, u8)> {
+    TRACE.with(|t| std::mem::replace(&mut *t.borrow_mut(), Vec::new()))
+  }
+
+  #[inline]
+  pub fn add_clocks(n: usize) {
+    CLOCKS.with(|c| c.set(c.get().wrapping_add(n as u64)));
+  }
+
+  pub fn clocks_total() -> u64 {
+    CLOCKS.with(|c| c.get())
+  }
+
+  impl super::MemoryAreas {
+    /// (source page base, next offset) of an OAM DMA in progress
+    pub fn verif_dma_state(&self) -> Option<(usize, u8)> {
+      self.oam_dma.map(|dma| (dma.source, dma.current_offset))
+    }
+  }
+}
